@@ -128,12 +128,32 @@ func (c *Ctx) basicLatinModel() (blProblems, *ast.FuncDecl) {
 			sawChars = true
 			seg := p[lo+1 : minInt(hi, len(p))]
 			e := charsP + "[#1]"
+			// the general path compares the lower-cased input rune with the lower-cased member (the builder emits
+			// unicode.ToLower(member) under IgnoreCase): under ignoreCase the member that is tested against 128 and
+			// indexes the table may be the folded one
+			folded := "unicode.ToLower(" + e + ")"
 			switch {
+			case seg.holds(folded + "<128"):
+				if !seg.holds(ic) {
+					add("chars-loop-folds-case", "a member is folded on a path that does not establish "+ic)
+				}
+				checkMember("chars", seg, folded, true)
+			case seg.holds(folded + ">=128"):
+				if !seg.holds(ic) {
+					add("chars-loop-folds-case", "a member is folded on a path that does not establish "+ic)
+				}
+				if len(stores(seg)) > 0 {
+					add("array-indices-bounded", "a member >= 128 is stored into the table")
+				}
 			case seg.holds(e + "<128"):
 				checkMember("chars", seg, e, true)
 			case seg.holds(e + ">=128"):
 				if len(stores(seg)) > 0 {
 					add("array-indices-bounded", "a member >= 128 is stored into the table")
+				}
+				if !seg.holds("!" + ic) {
+					// skipped by its raw value although what the general path compares with is its lower-case form
+					add("chars-fold-before-filter", "also under "+ic+" a member is skipped because the member as written is >= 128; the general path compares the lower-cased input with unicode.ToLower(member), which is a Basic Latin rune for U+212A (k) and U+0130 (i)")
 				}
 			default:
 				checkMember("chars", seg, e, false)
